@@ -8,7 +8,7 @@ import shutil
 import sys
 import time
 
-VERIF = "/verif"
+VERIF = os.environ.get("VERIF_ROOT", "/verif")
 EVIDENCE_DIR = os.path.join(VERIF, "evidence")
 REPLAY_DIR = os.path.join(VERIF, "replays")
 KNOWN_FILE = os.path.join(VERIF, "known_findings.json")
